@@ -155,9 +155,9 @@ func refineOrder(v *vk.Verdict, src, gotext string) *vk.Verdict {
 // reduce shrinks a failing program: units (declarations and main statements) are removed while
 // the program still builds with Go and fails with the same verdict class.
 func reduce(p *gosub.Program, class string) *gosub.Program {
-	cur := &gosub.Program{Decls: append([]string(nil), p.Decls...), Main: append([]string(nil), p.Main...)}
+	cur := &gosub.Program{Decls: append([]string(nil), p.Decls...), Main: append([]string(nil), p.Main...), AfterMain: p.AfterMain}
 	without := func(q *gosub.Program, drop map[int]bool) *gosub.Program {
-		r := &gosub.Program{}
+		r := &gosub.Program{AfterMain: q.AfterMain}
 		for i, d := range q.Decls {
 			if !drop[i] {
 				r.Decls = append(r.Decls, d)
